@@ -1127,3 +1127,22 @@ Proof.
     destruct (dfac (block s) n) as [[? ?]|]; [inversion Hsrc; reflexivity | discriminate].
   - apply (W_din _ (WF_block s (WF_reachable ops)) (block_blocked s)).
 Qed.
+
+(** * Finding: the CONTENT of an instance depends on the request order
+    n3 ?-> n0, n0 ?-> n1, n1 -> n3: every Get succeeds in every order with the same producer
+    (as proved above), but whether n0's optional field n1 is filled depends on which name was
+    requested first — and stays so for the life of the container. *)
+Definition wiring_pgm : list op :=
+  [OAddFactory 3 1 (mkProg [(0, true)] false false);
+   OAddFactory 0 2 (mkProg [(1, true)] false false);
+   OAddFactory 1 3 (mkProg [(3, false)] false false)].
+
+Lemma wiring_depends_on_order :
+  let s0 := run wiring_pgm init in
+  let sa := fst (Get s0 0) in                 (* n0 requested first *)
+  let sd := fst (Get (fst (Get s0 3)) 0) in   (* n3 requested first, then n0 *)
+  is_ok (snd (Get s0 0)) = true /\ is_ok (snd (Get (fst (Get s0 3)) 0)) = true /\
+  is_ok (snd (Get sa 1)) = true /\ is_ok (snd (Get sd 1)) = true /\
+  wire sa 0 = [Some (mkTok 1 KFac 3 1)] /\ wire sd 0 = [None] /\
+  wire (run [OGet 1; OGet 0; OGet 3] sd) 0 = [None].
+Proof. vm_compute. repeat split. Qed.
